@@ -61,6 +61,8 @@ def contracts():
     cs.append(Post('matching.TypeMatchError.__copy__', label='matching.TypeMatchError.__copy__[args]', cases=[
         Case('any', args={'self': 'inst:matching.TypeMatchError'}, requires=['len(self.args) == 3'],
              ensures=['type(result) is TypeMatchError', 'len(result.args) == 3', 'result.args[1] is self.args[1]', 'result.args[2] is self.args[2]'])]))
+    from contracts import X_ctor
+    cs += common.shared(X_ctor, ['core.GlomError._set_wrapped'])
     return cs
 
 
